@@ -22,8 +22,9 @@ import (
 // "Took effect" is the contract's own took-effect notification; the threshold rule itself is C32's.
 
 type c33Case struct {
-	N   int   `json:"n"`
-	Ops []gop `json:"ops"`
+	N       int   `json:"n"`
+	Persist bool  `json:"persist,omitempty"` // every block boundary flushes the block overlay into the store
+	Ops     []gop `json:"ops"`
 }
 
 // approve kinds that have a stored request record (black/white node have none)
@@ -141,7 +142,7 @@ func genC33(t *rapid.T) c33Case {
 		ops = append(ops[:at], append([]gop{nz}, ops[at:]...)...)
 	}
 	ops = append(ops, rapid.SliceOfN(noise, 0, ev.Scale(10, 30)).Draw(t, "tail")...)
-	return c33Case{N: n, Ops: ops}
+	return c33Case{N: n, Persist: rapid.Bool().Draw(t, "persist"), Ops: sprinkleNext(t, ops)}
 }
 
 type c33Model struct {
@@ -156,7 +157,10 @@ func runC33(ctx *ev.Ctx, c c33Case) {
 	if c.N < 4 {
 		c.N = 4
 	}
-	e := newEng(ctx, c.N, 0, 0)
+	e := newEng(ctx, c.N, engOpts{persist: c.Persist})
+	if c.Persist {
+		e.label("blocks-persisted")
+	}
 	m := &c33Model{pending: map[string]bool{}, consumed: map[string]bool{}, stale: map[string]bool{}, phase: map[string]int{},
 		appr: map[string]map[common.Address]bool{}}
 	neutral := func(k string) bool { // the class is a listed known finding: keep the search away from it
@@ -329,6 +333,6 @@ func TestC33(t *testing.T) {
 		"cases: N=4..8 (thorough 16) validators; one scenario per request kind (side-chain register/update/quit, relayer register/remove, state-validator register/remove, candidacy): "+
 			"request, approval round to effect, SECOND approval round on the same id, no-op requests (lists already registered / not registered / empty, update equal to the record); re-creation of the target (chain re-registered under another owner / relayer re-registered / candidate quit and epoch change), THIRD round; "+
 			"round sizes vary (threshold, threshold-1, all, 1), up to 5 arbitrary governance transactions inserted anywhere and an arbitrary tail. "+
-			"non-trivial: some request took effect, its target family was re-created afterwards, and a further approval of the consumed request was attempted; distinct by JSON of the case",
+			"non-trivial: some request took effect, its target family was re-created afterwards, and a further approval of the consumed request was attempted; in half of the cases every block boundary persists the block overlay into the store, and about one op in three is followed by a block boundary; distinct by JSON of the case",
 		genC33, runC33)
 }
